@@ -296,6 +296,20 @@ class _Col(PyStub):
     def min(self):
         return sp.Min(*self.v) if len(self.v) else sp.nan
 
+    @property
+    def iloc(self):
+        return _Positional(self.v)
+
+    @property
+    def values(self):
+        return self.v.copy()
+
+    def to_numpy(self, *a, **k):
+        return self.v.copy()
+
+    def tolist(self):
+        return list(self.v)
+
     def _cmp(self, o, f):
         import numpy as np
         if o is sp.nan:
@@ -313,6 +327,20 @@ class _Col(PyStub):
 
     def __le__(self, o):
         return self._cmp(o, lambda x, y: x <= y)
+
+
+class _Positional(PyStub):
+    """column.iloc: access by position"""
+    def __init__(self, v):
+        self.v = v
+
+    def __getitem__(self, i):
+        if isinstance(i, slice):
+            return _Col(self.v[i])
+        i = int(i)
+        if not -len(self.v) <= i < len(self.v):
+            raise IndexError('single positional indexer is out-of-bounds')
+        return self.v[i]
 
 
 def _cast(x, dtype=None, **k):
@@ -499,7 +527,7 @@ def flatten_model(ctx):
         for r in runs:
             if r is None:
                 continue
-            new = [tuple((c, r[c][i]) for c in sorted(r)) for i in range(len(r['Step']))]
+            new = [tuple((c, r[c][i]) for c in sorted(r) if r[c][i] is not None) for i in range(len(r['Step']))]
             step = lambda row: dict(row)['Step']
             if not new:
                 continue          # a run cut short right after its header line has no timestep to contribute
@@ -529,6 +557,15 @@ def flatten_model(ctx):
                           ('the first run has no rows (a crashed log followed by the appended log of its restart)', [dict(EMPTY), RUNS[0], RUNS[1]])):
             got3 = flat(style, runs)
             ctx.ob('FLATTEN', loc, "'%s', %s: the timesteps of the other runs are all there, each once" % (style, tag), got3 == brute(style, runs), 'got %s' % str(got3)[:200], node=fn, key='empty run %s %s' % (style, tag[:12]))
+    # the last line of a crashed run was cut inside its Step field: the last listed Step of that run is not its largest
+    CUT = run_of('A', [0, 10, 20, 30])
+    CUT['Step'].append(I(4))
+    CUT['Temp'].append(None)
+    for style in ('first', 'last', 'all'):
+        runs = [CUT, run_of('B', [20, 30, 40, 50])]
+        got4 = flat(style, runs)
+        ctx.ob('FLATTEN', loc, "'%s', the crashed first run ends with a line cut inside its Step field (4 of 40): the restarted run is still merged against every Step already present, not against the last one listed" % style,
+               got4 == brute(style, runs), 'got %s' % str(got4)[:240], node=fn, key='cut step ' + style)
     ctx.ob('FLATTEN', loc, "the default style is 'last'", flat(None, RUNS, give_style=False) == brute('last', RUNS), node=fn, key='default style')
     ctx.ob('FLATTEN', loc, 'merged rows are renumbered (ignore_index=True on every concatenation)', bool(concat_calls) and all(concat_calls), node=fn, key='ignore_index')
     ctx.ob('FLATTEN', loc, 'an unknown style is refused', flat('median', RUNS) is None, node=fn, key='unknown style')
@@ -548,16 +585,32 @@ def restart(ctx):
     fn = ctx.fn(RUN, 'run')
     loc = RUN + '::run'
 
-    def scenario(files, screen, restart=True, logfile='log.lammps'):
-        fs = set(files)
+    def scenario(files, screen, restart=True, logfile='log.lammps', sessions=None):
+        """one call of run() on a model file system holding `files` (reads are recorded by name), or, with sessions=n, n successive calls starting from an empty
+        directory tree (reads are recorded by what the file holds: the number of the session that wrote it)"""
+        import posixpath
+        fs = {f: f for f in files}
         renames, reads = [], []
+        current = ['']
 
         class FP(PyStub):
             def __init__(self, name=''):
-                self.name = str(name)
+                p_ = str(name)
+                self.path = '' if p_ in ('', '.') else posixpath.normpath(p_)
+
+            @property
+            def name(self):
+                return posixpath.basename(self.path)
+
+            @property
+            def parent(self):
+                return FP(posixpath.dirname(self.path))
 
             def is_file(self):
-                return self.name in fs
+                return self.path in fs
+
+            def exists(self):
+                return self.path in fs
 
             @property
             def stem(self):
@@ -568,35 +621,41 @@ def restart(ctx):
                 return '.' + self.name.rsplit('.', 1)[1] if '.' in self.name else ''
 
             def rename(self, new):
-                new = str(new)
-                renames.append((self.name, new))
-                fs.discard(self.name)
-                fs.add(new)
+                new = FP(new).path
+                renames.append((self.path, new))
+                fs[new] = fs.pop(self.path)
+                return FP(new)
 
             def glob(self, pat):
                 import fnmatch
-                return [FP(f) for f in sorted(fs) if fnmatch.fnmatch(f, pat)]
+                return [FP(f) for f in sorted(fs) if posixpath.dirname(f) == self.path and fnmatch.fnmatch(posixpath.basename(f), pat)]
+
+            def __truediv__(self, o):
+                return FP(posixpath.join(self.path, str(o)) if self.path else str(o))
+
+            def with_name(self, n):
+                return self.parent / n
 
             def as_posix(self):
-                return self.name
+                return self.path or '.'
 
             def __str__(self):
-                return self.name
+                return self.path or '.'
 
             def __eq__(self, o):
-                return str(o) == self.name
+                return str(o) == str(self)
 
             def __ne__(self, o):
-                return str(o) != self.name
+                return str(o) != str(self)
 
             def __hash__(self):
-                return hash(self.name)
+                return hash(self.path)
 
             def __lt__(self, o):          # paths order by their text: 'log-10.lammps' < 'log-2.lammps'
-                return self.name < str(o)
+                return str(self) < str(o)
 
             def __format__(self, spec):
-                return self.name
+                return str(self)
 
         class Out(PyStub):
             stdout = 'STDOUT-OF-THIS-RUN'
@@ -605,7 +664,12 @@ def restart(ctx):
             CalledProcessError = 'CalledProcessError'
 
             def run(self, command, **kw):
-                fs.add(logfile)          # LAMMPS writes the new log file
+                # LAMMPS writes the new log file where -log says (log.lammps in the working directory otherwise)
+                command = [str(c) for c in command]
+                target = command[command.index('-log') + 1] if '-log' in command else 'log.lammps'
+                if target != 'none':
+                    target = FP(target).path
+                    fs[target] = current[0] if sessions is not None else fs.get(target, target)
                 return Out()
 
         class Shlex(PyStub):
@@ -614,20 +678,32 @@ def restart(ctx):
 
         class LogStub(PyStub):
             def read(self, what, **kw):
-                reads.append(str(what))
-        ev = SymEval(module_aliases(ctx.mod(RUN)))
-        ev.globals = {'Path': FP, 'subprocess': Sub(), 'shlex': Shlex(), 'Log': LogStub, 'LammpsError': 'LammpsError', 'int': int, 'str': str}
+                if sessions is None:
+                    reads.append(str(what))
+                elif str(what) == 'STDOUT-OF-THIS-RUN':
+                    reads.append(current[0])
+                else:
+                    reads.append(fs.get(FP(what).path, 'MISSING ' + str(what)))
         kw = dict(script_name='in.lmp', logfile=logfile, screen=screen)
         if restart:
             kw['restart_script_name'] = 'restart.lmp'
-        try:
-            paths = ev.run_fn(fn, ['lmp'], kw)
-        except WouldRaise as e:
-            return None, renames, 'raises: %s' % e
-        except Opaque as e:
-            raise AnalysisError('run() on the model file system: %s' % e)
-        if len([q for q in paths if q.done == 'return']) != 1:
-            return None, renames, 'no single returning path'
+        history = []
+        for k in range(sessions or 1):
+            current[0] = 'session %d' % k
+            del reads[:]
+            ev = SymEval(module_aliases(ctx.mod(RUN)))
+            ev.globals = {'Path': FP, 'subprocess': Sub(), 'shlex': Shlex(), 'Log': LogStub, 'LammpsError': 'LammpsError', 'int': int, 'str': str}
+            try:
+                paths = ev.run_fn(fn, ['lmp'], dict(kw))
+            except WouldRaise as e:
+                return None, renames, 'raises: %s' % e
+            except Opaque as e:
+                raise AnalysisError('run() on the model file system: %s' % e)
+            if len([q for q in paths if q.done == 'return']) != 1:
+                return None, renames, 'no single returning path'
+            history.append(list(reads))
+        if sessions is not None:
+            return history, renames, ''
         return reads, renames, ''
     cases = [('first restart (one earlier attempt)', ['log.lammps'], True, True, [('log.lammps', 'log-1.lammps')], ['log-1.lammps', 'STDOUT-OF-THIS-RUN']),
              ('third restart, log file read back', ['log.lammps', 'log-1.lammps', 'log-2.lammps'], False, True, [('log.lammps', 'log-3.lammps')], ['log-1.lammps', 'log-2.lammps', 'log-3.lammps', 'log.lammps']),
@@ -642,7 +718,14 @@ def restart(ctx):
         reads, renames, why = scenario(files, screen, restart=rs, logfile=case[6] if len(case) > 6 else 'log.lammps')
         ctx.ob('RESTART', loc, '%s: the previous log is renamed to the next free number and the returned Log reads every earlier attempt in order, then the current run' % tag,
                reads == want_reads and renames == want_ren, why or 'renames %s, reads %s' % (renames, reads), node=fn, key='restart ' + tag)
-    ctx.floor('RESTART', len(cases), 5)
+    # histories: the same call repeated, every session restarting the one before; wherever the numbered copies are kept, each call returns every session so far, in order
+    for tag, logfile, screen in (('log file in the working directory, screen read back', 'log.lammps', True), ('log file in a sub-directory, screen read back', 'out/md.lammps', True),
+                                 ('log file in a sub-directory, log file read back', 'out/md.lammps', False), ('log file in the working directory under another name, log file read back', 'md.lammps', False)):
+        hist, renames, why = scenario([], screen, restart=True, logfile=logfile, sessions=4)
+        want = [['session %d' % j for j in range(k + 1)] for k in range(4)]
+        ctx.ob('RESTART', loc, 'four successive sessions, %s: the Log returned by session k holds sessions 0..k in order (no earlier log is overwritten or left out)' % tag, hist == want, why or 'reads per session %s, renames %s' % (hist, renames),
+               node=fn, key='history ' + tag)
+    ctx.floor('RESTART', len(cases) + 4, 9)
 
 
 def run(ctx):
